@@ -265,7 +265,11 @@ impl ServerCfg {
         }
     }
     pub fn model(&self) -> RefServer {
+        self.model_with(false)
+    }
+    pub fn model_with(&self, strict_byte_count: bool) -> RefServer {
         RefServer {
+            strict_byte_count,
             framing: self.framing(),
             apps: self.units.iter().map(|(u, a)| (*u, a.build())).collect(),
             auth: self.auth.as_ref().map(|(p, r)| {
